@@ -128,6 +128,8 @@ func Run(c *hx.Ctx) {
 			h2payCases(c)
 		case "h2hl":
 			h2hlCases(c)
+		case "h2body":
+			h2bodyCases(c)
 		}
 		return
 	}
@@ -236,6 +238,8 @@ func Run(c *hx.Ctx) {
 	h2payCases(c)
 	// [c08p10] the header list of readMetaFrame at its MAX_HEADER_LIST_SIZE budget
 	h2hlCases(c)
+	// [c08p10] the stream layer's body buffer against the announced content-length
+	h2bodyCases(c)
 	// the decode loop of the real Dispatch under a Decode-call counter and a watchdog
 	dispCases(c)
 	// the decode loops of the real HTTP/2 server / client Dispatch under a Decode-call recorder and a watchdog
